@@ -73,10 +73,12 @@ pub struct SchedReader {
     pub first_read_start: Option<Instant>,
     /// real time the first read call takes (a sign that is slow to answer)
     pub latency: Duration,
+    /// real time EVERY read call takes (a reply that trickles in)
+    pub per_read: Duration,
 }
 impl SchedReader {
     pub fn new(content: Vec<u8>, sched: Vec<RdEv>) -> Self {
-        SchedReader { content, pos: 0, sched: sched.into(), calls: 0, last_read_end: None, first_read_start: None, latency: Duration::ZERO }
+        SchedReader { content, pos: 0, sched: sched.into(), calls: 0, last_read_end: None, first_read_start: None, latency: Duration::ZERO, per_read: Duration::ZERO }
     }
     pub fn remaining(&self) -> &[u8] {
         &self.content[self.pos..]
@@ -91,6 +93,9 @@ impl Read for SchedReader {
             }
         }
         self.calls += 1;
+        if !self.per_read.is_zero() {
+            std::thread::sleep(self.per_read);
+        }
         let avail = self.content.len() - self.pos;
         let r = match self.sched.pop_front() {
             None => Ok(buf.len().min(avail)),
@@ -757,6 +762,24 @@ pub fn eval_io_case(t: &[&str]) -> Option<String> {
             } else {
                 Some(result)
             }
+        }
+        "SBD" => {
+            // SBD msg tape millis: one exchange on a port whose every read takes `millis` of real time (a reply that
+            // trickles in; each read is well inside the port's timeout, the whole line may take longer than it)
+            let mut rd = SchedReader::new(bytes_of_hex(t[2]), vec![]);
+            rd.per_read = Duration::from_millis(t[3].parse().unwrap());
+            let mut bus = match SerialSignBus::try_new(TestPort::new(rd, SchedWriter::new(vec![]))) {
+                Ok(b) => b,
+                Err(_) => return Some("ER SETUP".to_string()),
+            };
+            let r = guarded(|| bus.process_message(msg_of_str(t[1])));
+            let res = match &r {
+                None => "PANIC".to_string(),
+                Some(Ok(reply)) => format!("OK {}", str_omsg(reply)),
+                Some(Err(_)) => "ER".to_string(),
+            };
+            let port = bus.port();
+            Some(format!("{} | {} | {}", res, hex_of_bytes(&port.wr.out), hex_of_bytes(port.rd.remaining())))
         }
         "TMS" => {
             // TMS n state: n state queries in a row on ONE bus, each answered with a report of that state; which of the
